@@ -715,7 +715,7 @@ class SQLTransactionState:
                     self.in_tx_local_settings = local_settings
                     break
                 else:
-                    self.savepoints.pop(0)
+                    self.savepoints.pop()
             else:
                 raise errors.TransactionError(
                     f'savepoint "{query_unit.sp_name}" does not exist'
